@@ -120,6 +120,10 @@ def parse_devs(model, text, cc, fobj=None):
         if kind == 'float':
             if str(ch.array.dtype) != 'float64':
                 cc.dev('values==model', 'numeric-dtype', 'channel %s: dtype %s' % (name, ch.array.dtype))
+            if not all(isinstance(g, (int, float)) or type(g).__module__ == 'numpy' and hasattr(g, '__float__') for g in got):
+                cc.dev('values==model', 'numeric-column-not-numbers', 'channel %s (units %r): values of type %s' % (
+                    name, units, sorted({type(g).__name__ for g in got})))
+                continue
             bad = [j for j in range(nrows) if not (float(got[j]) == vals[j])]
             if bad:
                 j = bad[0]
